@@ -175,12 +175,14 @@ func H_Cancel() {
 		nd.Assume(st.base.StartTime.After(now))
 	}
 	signer := user(0)
-	signerCase := nd.Pick("m.signer", 3)
+	signerCase := nd.Pick("m.signer", 4)
 	switch signerCase {
 	case 1:
 		signer = user(1)
 	case 2:
 		signer = badAddr
+	case 3:
+		signer = userUpper(0) // the auctioneer's account, spelled in upper case
 	}
 	id := uint64(0)
 	exists := nd.Pick("m.exists", 2) == 1
@@ -196,8 +198,9 @@ func H_Cancel() {
 		_, err = e.Msg.CancelAuction(e.Ctx, msg)
 	}
 	accepted := vErr == nil && err == nil
-	ref := exists && signerCase == 0 && sp.status == types.AuctionStatusStandBy
-	nd.Assert("C12.cancel-accepted-iff-auctioneer-and-waiting", accepted == ref)
+	ref := exists && (signerCase == 0 || signerCase == 3) && sp.status == types.AuctionStatusStandBy
+	// C12 states "only": acceptance implies auctioneer and waiting (exactness of acceptance is C18's clause)
+	nd.Assert("C12.cancel-accepted-only-by-auctioneer-while-waiting", !accepted || ref)
 	nd.Assert("C18.cancel-accepted-iff-documented-preconditions", accepted == ref)
 	post := snapshot(e, trackedAccounts(0))
 	a := getAuction(e, 0)
@@ -209,6 +212,8 @@ func H_Cancel() {
 		if fa, ok := a.(*types.FixedPriceAuction); ok {
 			nd.Assert("C12.cancel-zeroes-remainder", fa.RemainingSellingCoin.Amount.IsZero())
 		}
+		// cancelled: nothing is owed; cancelling sweeps the whole selling escrow (third-party coins included)
+		nd.Assert("C01.cancel-selling-escrow-empty", post.get(st.sellingAddr(), denomSell).IsZero())
 		nd.Assert("C01.cancel-escrows", nd.And(post.get(st.payingAddr(), denomPay).EQ(pre.get(st.payingAddr(), denomPay)), post.get(st.vestingAddr(), denomPay).EQ(pre.get(st.vestingAddr(), denomPay))))
 		assertTermsUnchanged("C19.cancel-terms", preA, a, sp.nEnd)
 		nd.Cover("cancel-accepted")
@@ -240,8 +245,9 @@ func H_PlaceBid() {
 		nd.Assume(st.base.StartTime.After(now))
 	}
 	bidder := user(1)
-	if sp.status == types.AuctionStatusStarted && !sp.batch {
-		// RI R9: the bidder's earlier fixed-price bids were within the allowance in force then; caps may have been lowered since
+	msgBidder := bidder
+	if nd.Pick("m.upper", 2) == 1 {
+		msgBidder = userUpper(1) // same account, upper-case spelling
 	}
 	bidType := types.BidType(nd.Pick("m.type", 4)) // 0 = nil (invalid), 1 fixed, 2 worth, 3 many
 	msgDenom := denomPay
@@ -266,7 +272,7 @@ func H_PlaceBid() {
 	preA := st.auction()
 	preBids := bidsOf(e, 0)
 
-	msg := types.NewMsgPlaceBid(id, bidder, bidType, price, sdk.Coin{Denom: msgDenom, Amount: amt})
+	msg := types.NewMsgPlaceBid(id, msgBidder, bidType, price, sdk.Coin{Denom: msgDenom, Amount: amt})
 	vErr := msg.ValidateBasic()
 	var err error
 	if vErr == nil {
@@ -340,7 +346,9 @@ func H_PlaceBid() {
 	if len(postBids) == len(preBids)+1 {
 		rec := postBids[len(postBids)-1]
 		nd.Assert("C19.bid-id-increasing", rec.Id == uint64(len(preBids)+1) && rec.AuctionId == 0)
-		nd.Assert("C18.bid-record-terms", nd.And(rec.Bidder == bidder, rec.Type == bidType, rec.Price.Equal(price), rec.Coin.Denom == msgDenom, rec.Coin.Amount.Equal(amt)))
+		// RI R6: the stored bidder string is the canonical spelling of the account, whatever spelling the message used
+		nd.Assert("C10.bid-bidder-stored-canonically", rec.Bidder == bidder)
+		nd.Assert("C18.bid-record-terms", nd.And(addr(rec.Bidder).Equals(addr(bidder)), rec.Type == bidType, rec.Price.Equal(price), rec.Coin.Denom == msgDenom, rec.Coin.Amount.Equal(amt)))
 		nd.Assert("C16.bid-flag-at-placement", rec.IsMatched == (bidType == types.BidTypeFixedPrice))
 	}
 	bd := addr(bidder)
@@ -383,6 +391,10 @@ func H_ModifyBid() {
 		}
 	}
 	signer := user(nd.Pick("m.signer", 2) + 1)
+	msgSigner := signer
+	if nd.Pick("m.upper", 2) == 1 {
+		msgSigner = userUpper(indexOfUser(signer))
+	}
 	msgDenom := denomPay
 	if nd.Pick("m.denom", 2) == 1 {
 		msgDenom = denomSell
@@ -395,7 +407,7 @@ func H_ModifyBid() {
 	preA := st.auction()
 	preBids := bidsOf(e, 0)
 
-	msg := types.NewMsgModifyBid(0, signer, bidId, price, sdk.Coin{Denom: msgDenom, Amount: amt})
+	msg := types.NewMsgModifyBid(0, msgSigner, bidId, price, sdk.Coin{Denom: msgDenom, Amount: amt})
 	vErr := msg.ValidateBasic()
 	var err error
 	if vErr == nil {
@@ -475,22 +487,28 @@ func H_Allowed() {
 		id = 7
 	}
 	who := user(2)
-	whoOK := nd.Pick("m.addrOK", 2) == 1
+	whoCase := nd.Pick("m.addrOK", 3)
+	whoOK := whoCase != 0
 	if !whoOK {
 		who = badAddr
 	}
+	whoMsg := who
+	if whoCase == 2 {
+		whoMsg = userUpper(2)
+	}
 	newCap := anyInt("m.cap")
-	op := nd.Pick("op", 3)
+	op := nd.Pick("op", 4)
 	preListed1, preCap1 := st.allowed[1], st.caps[1]
 	preA := st.auction()
 	var err error
 	switch op {
 	case 0: // module API: add
-		err = e.K.AddAllowedBidders(e.Ctx, id, []types.AllowedBidder{{AuctionId: id, Bidder: who, MaxBidAmount: newCap}})
+		err = e.K.AddAllowedBidders(e.Ctx, id, []types.AllowedBidder{{AuctionId: id, Bidder: whoMsg, MaxBidAmount: newCap}})
 		ref := nd.And(exists, whoOK, newCap.IsPositive(), newCap.LTE(st.offered()))
 		nd.Assert("C18.add-allowed-accepted-iff-preconditions", nd.Iff(err == nil, ref))
 		if err == nil {
 			ab, gerr := e.K.AllowedBidder.Get(e.Ctx, collections.Join(id, addr(who)))
+			// the entry is stored under the canonical spelling (Match looks bidders up by string)
 			nd.Assert("C10.add-allowed-stores-entry", gerr == nil && ab.Bidder == who && ab.AuctionId == id && ab.MaxBidAmount.Equal(newCap))
 			nd.Cover("allowed-added")
 		}
@@ -506,7 +524,7 @@ func H_Allowed() {
 	case 2: // transaction message, switch symbolic
 		sw := nd.Bool("switch")
 		keeper.EnableAddAllowedBidder = sw
-		msg := types.NewMsgAddAllowedBidder(id, types.AllowedBidder{AuctionId: id, Bidder: who, MaxBidAmount: newCap})
+		msg := types.NewMsgAddAllowedBidder(id, types.AllowedBidder{AuctionId: id, Bidder: whoMsg, MaxBidAmount: newCap})
 		vErr := msg.ValidateBasic()
 		if vErr == nil {
 			_, err = e.Msg.AddAllowedBidder(e.Ctx, msg)
@@ -523,12 +541,31 @@ func H_Allowed() {
 		} else {
 			nd.Cover("allowed-message-refused")
 		}
+	case 3: // transaction message naming an account that may already be on the list: it must not change the entry either
+		sw := nd.Bool("switch")
+		keeper.EnableAddAllowedBidder = sw
+		msg := types.NewMsgAddAllowedBidder(id, types.AllowedBidder{AuctionId: id, Bidder: user(1), MaxBidAmount: newCap})
+		vErr := msg.ValidateBasic()
+		if vErr == nil {
+			_, err = e.Msg.AddAllowedBidder(e.Ctx, msg)
+		} else {
+			err = vErr
+		}
+		nd.Assert("C10.message-for-listed-account-refused-unless-switch-on", nd.Implies(err == nil, sw))
+		ab, gerr := e.K.AllowedBidder.Get(e.Ctx, collections.Join(uint64(0), addr(user(1))))
+		nd.Assert("C10.message-cannot-create-entry-with-switch-off", nd.Or(sw, (gerr == nil) == preListed1))
+		if gerr == nil && preListed1 {
+			nd.Assert("C10.message-cannot-change-entry-with-switch-off", nd.Or(sw, ab.MaxBidAmount.Equal(preCap1)))
+		}
+		if err == nil {
+			nd.Cover("listed-by-message")
+		}
 	}
 	// frame: the auction record and user 1's entry are untouched unless targeted
 	a := getAuction(e, 0)
 	assertTermsUnchanged("C19.allowed-terms", preA, a, sp.nEnd)
 	nd.Assert("C19.allowed-status-unchanged", a.GetStatus() == sp.status)
-	if op != 1 || err != nil {
+	if (op != 1 && op != 3) || err != nil {
 		ab, gerr := e.K.AllowedBidder.Get(e.Ctx, collections.Join(uint64(0), addr(user(1))))
 		nd.Assert("C19.allowed-other-entry-unchanged", (gerr == nil) == preListed1)
 		if gerr == nil && preListed1 {
